@@ -71,6 +71,7 @@
 import PS.Proofs.Enum.BeapHeadMin
 import PS.Proofs.Enum.BeapOrderRun
 import PS.Proofs.Enum.BeapOrderFinal
+import PS.Proofs.Enum.BeapAcyclic
 import PS.Props.C02_Beap
 namespace PS.C03Beap
 open PS PS.G PS.Beap PS.Heapq
@@ -127,6 +128,38 @@ variable {S : Type} [DecidableEq S]
 /-- the hypothesis `StableAfter` (the state returned by the prologue is a fixpoint of `_reevaluate_`) holds on
     every grammar flagged recursive -/
 theorem C03_Beap_stable_of_recursive (E : Env S) (hrec : E.recursive = true) : StableAfter E := stableAfter_of_rec E hrec
+
+/-- **on an ACYCLIC grammar** (a rank decreasing along the rules) `_init_non_terminal_` alone reaches the
+    fixpoint: the hypothesis `StableAfter` holds whether or not `_reevaluate_` runs (whatever `is_recursive()`) -/
+theorem C03_Beap_stable_of_acyclic (E : Env S) (hnd : RowsNodup E.G) (rank : NT S Unit → Nat) (hrk : Ranked E rank) :
+    StableAfter E := stableAfter_of_ranked rank E hnd hrk
+
+/-- **minimal costs on acyclic grammars, without re-evaluation**: after the prologue `_cost_lists[S][0]` is the
+    true minimum of the costs of the programs derivable from `S`, for every initialised `S` -/
+theorem C03_Beap_minCost_acyclic (E : Env S) (hnd : RowsNodup E.G) (rank : NT S Unit → Nat) (hrk : Ranked E rank)
+    (fuel : Nat) (s' : St S) (h : prologue E fuel (St.empty E.G) = some s') (nt : NT S Unit) (c : Cost) (rest : List Cost)
+    (hc : s'.clOf nt = c :: rest) :
+    (∀ t k, costOf E t nt = some k → c.inf = 0 ∧ c.fin ≤ k) ∧
+    (c.inf = 0 → ∃ t, gen E.G t nt = true ∧ costOf E t nt = some c.fin) :=
+  prologue_minCost E hnd (stableAfter_of_ranked rank E hnd hrk) fuel s' h nt c rest hc
+
+/-- `Ranked` from a Boolean check of the rule table -/
+theorem ranked_of_check (E : Env S) (rank : NT S Unit → Nat)
+    (h : E.G.rules.all (fun r => r.2.all (fun rule => rule.2.1.all (fun a => decide (rank (ntOf a) < rank r.1)))) = true) :
+    Ranked E rank := by
+  intro nt P rl hr a ha
+  unfold TT.rule? at hr
+  split at hr
+  · cases hr
+  · next rs hrs =>
+    have h1 := AList.lookup_some_mem hrs
+    have h2 := AList.lookup_some_mem hr
+    rw [List.all_eq_true] at h
+    have h3 := h _ h1
+    rw [List.all_eq_true] at h3
+    have h4 := h3 _ h2
+    rw [List.all_eq_true] at h4
+    simpa using h4 a ha
 
 /-- the generator objects reachable after the first `next`, by any history of `next` / `merge_program` -/
 inductive ReachS (E : Env S) (fuel : Nat) : Gen S → Prop
@@ -360,5 +393,43 @@ example : ∃ g ys fin, take demoE 300 12 (Gen.new demoG) [] = some (g, ys, fin)
     obtain ⟨g, ys, fin⟩ := r
     simp only [hp, Option.map_some, Option.some.injEq, Prod.mk.injEq] at h
     exact ⟨g, ys, fin, rfl, h.1, h.2⟩
+
+/-! ### non-vacuity on a finite grammar that `is_recursive()` does not flag: `X -> a | m(Y,Y)`, `Y -> a | b` (C12_Beap.mG) -/
+def fX : NT Nat Unit := (Ty.base "int", (0, ()))
+def fY : NT Nat Unit := (Ty.base "int", (1, ()))
+def finG : TT Nat Unit :=
+  { start := fX,
+    rules := [ (fX, [(C02Beap.sy 0, ([], ())), (C02Beap.sy 1, ([(Ty.base "int", 1), (Ty.base "int", 1)], ()))]),
+               (fY, [(C02Beap.sy 0, ([], ())), (C02Beap.sy 2, ([], ()))]) ] }
+def finE : Env Nat :=
+  { G := finG, W := [ (fX, [(C02Beap.sy 0, 1), (C02Beap.sy 1, 1)]), (fY, [(C02Beap.sy 0, 1), (C02Beap.sy 2, 2)]) ],
+    filter := fun _ => true, recursive := false }
+def finRank (nt : NT Nat Unit) : Nat := if nt = fX then 1 else 0
+
+theorem fin_rowsNodup : RowsNodup finG := by
+  intro nt rs h
+  simp only [finG, AList.lookup] at h
+  repeat (first | (split at h; (cases h; decide)) | (simp at h))
+
+theorem fin_ranked : Ranked finE finRank := ranked_of_check finE finRank (by decide)
+
+theorem fin_productive : Productive finE := by
+  intro nt h
+  by_cases h1 : nt = fX
+  · subst h1; exact ⟨.node (C02Beap.sy 0) [], 1, by decide +kernel⟩
+  · by_cases h2 : nt = fY
+    · subst h2; exact ⟨.node (C02Beap.sy 0) [], 1, by decide +kernel⟩
+    · simp [finE, finG, AList.lookup, Ne.symm h1, Ne.symm h2] at h
+
+/-- the full order theorem applies to this finite grammar although `recursive = false` (no re-evaluation) -/
+example (fuel k : Nat) (g : Gen Nat) (ys : List Prog) (fin : Bool) (h : take finE fuel k (Gen.new finG) [] = some (g, ys, fin)) :
+    ys.Pairwise (fun p q => ∀ a b, costOf finE p finG.start = some a → costOf finE q finG.start = some b → a ≤ b) :=
+  (C03_Beap_order finE fin_rowsNodup (C03_Beap_stable_of_acyclic finE fin_rowsNodup finRank fin_ranked) fin_productive
+    (posW_of_check finE (by decide +kernel)) fuel k g ys fin h).1
+
+/-- and the run is not vacuous: the five programs come out by cost 1, 3, 4, 4, 5 and the generator stops -/
+example : (take finE 100 10 (Gen.new finG) []).map (fun r => (r.2.1.map (fun p => costOf finE p finG.start), r.2.2)) =
+    some ([some 1, some 3, some 4, some 4, some 5], true) := by
+  decide +kernel
 
 end PS.C03Beap
